@@ -579,6 +579,26 @@ class Shape:
         return None
 
 
+def pinned_wide_case(rng, n, r, n_out):
+    """a search with MANY gates (17-24) that stays cheap: a random circuit of r two-input gates over n inputs is
+    drawn, its functions are the specification, and every gate is pinned (both predecessors and the type) with
+    fix_gate; the outputs sit at distinct gates.  Any 'exactly one' group of more than 16 literals is exercised"""
+    names = ['AND', 'OR', 'XOR', 'NAND', 'NOR', 'NXOR']
+    fn = {'AND': lambda a, b: a & b, 'OR': lambda a, b: a | b, 'XOR': lambda a, b: a ^ b,
+          'NAND': lambda a, b: 1 - (a & b), 'NOR': lambda a, b: 1 - (a | b), 'NXOR': lambda a, b: 1 - (a ^ b)}
+    rows = 1 << n
+    cols = [[(t >> (n - 1 - i)) & 1 for t in range(rows)] for i in range(n)]
+    pre = []
+    for g in range(n, n + r):
+        a, b = sorted(rng.sample(range(g), 2))
+        t = rng.choice(names)
+        cols.append([fn[t](x, y) for x, y in zip(cols[a], cols[b])])
+        pre.append(['fix', g, a, b, t])
+    outs = rng.sample(range(n, n + r), n_out)
+    return {'tt': [''.join(str(v) for v in cols[o]) for o in outs], 'r': r, 'basis': {'kind': 'enum', 'name': 'FULL'},
+            'norm': False, 'pre': pre, 'post': []}
+
+
 def shape_of(case):
     return Shape(case)
 
